@@ -376,6 +376,8 @@ package tcell
 //@           invariant [f4s] state == 4 ==> fs == s1 + 1
 //@           invariant [f5] state == 5 ==> s1 < s2 && b[s2] == ';' && fieldOK(b, s1+1, s2) && x == sval(b, s1+1, s2) - 1 && fs == s2 + 1
 //@           decreases len(b) - rangeindex
-//@   loop 2: invariant [consume] -1 <= i && bufwf(buf) && buf.buf == old(buf.buf) && len(*evs) == old(len(*evs))
-//@           invariant [count] exists ee int :: 0 <= ee && ee < len(b) && buf.off + i + 1 == old(buf.off) + ee + 1 && (b[ee] == 'm' || b[ee] == 'M')
+//@   ghost loop-entry:2: ge = i
+//@   ghost loop-entry:2: gbtn = btn
+//@   loop 2: invariant [consume] -1 <= i && bufwf(buf) && buf.buf == old(buf.buf) && len(*evs) == old(len(*evs)) && buf.off + i == old(buf.off) + ge
+//@           invariant [btn] btn == gbtn
 //@           decreases i + 1
